@@ -16,6 +16,7 @@ HARNESSES = [
     Harness('c07_export_owned_parameter_dropped_once_when_user_drops_it', 'export.owned_parameter_dropped_once_with_its_value', G + 'export trampoline, HandleLift own of an exported resource'),
     Harness('c07_export_result_handle_transferred_not_dropped', 'export.new_resource_transferred_reached_through_handles_destroyed_once', G + 'type_resource: Counter::{new,get,dtor,type_guard}, CounterBorrow::{lift,get}, constructor/give trampolines, ResourceRep for Option<T> (crates/guest-rust/src/resource.rs)'),
     Harness('c07_export_into_inner_moves_value_out_destroyed_once', 'export.into_inner_moves_value_out_destroyed_once', G + 'Counter::{into_inner, dtor}, ResourceRep::rep_take for Option<T> (crates/guest-rust/src/resource.rs)'),
+    Harness('c07_import_list_of_owned_handles_transferred_not_dropped', 'import.list_of_owned_handles_transferred_not_dropped', G + 'import glue for list<own<thing>> (is_list_canonical / ListLower / HandleLower own, crates/rust/src/interface.rs, bindgen.rs)', bounded='lists of one or two handles'),
 ]
 
 
@@ -28,7 +29,7 @@ def run(rep, tier):
                'rule R1: the generated native import stand-ins `{ unreachable!() }` call the mock host (the only edit to generated text)',
                '64-bit verification target: the two export trampolines that receive a borrowed exported resource as a core i32 truncate the '
                'pointer to 32 bits (identity on wasm32 only), so the generated CounterBorrow/Counter accessors are driven directly instead',
-               'not covered: async functions, handles nested in records/lists/options, futures/streams/error-context handles, the `borrow` '
+               'not covered: async functions, handles nested in records/options (a list of owned handles passed to an import is covered), futures/streams/error-context handles, the `borrow` '
                'of an imported resource passed to an export (handle_decls scoping)')
     d = rustgen.generate(rep, 'rustgen_res', mock=True)
     kani.run_harnesses(rep, d, HARNESSES, None, 'kani-rustgen', timeout_each=600, harness_file=os.path.join(d, 'src/lib.rs'),
